@@ -216,10 +216,10 @@ func c11MapGen(r *vhRng, enc bool) string {
 		}
 	case 1:
 		if len(data) > 0 {
-			data[r.Intn(len(data))] ^= 1 << uint(r.Intn(8))
-			if data[0]&3 >= 2 { // keep the declared entry count small
-				data[0] &^= 2
-			}
+			// not the mode bit: a byte-string length in 4-byte or big-integer mode is 2^29 on average
+			// and is really allocated
+			bit := uint(r.Pick(0, 2, 3, 4, 5, 6, 7))
+			data[r.Intn(len(data))] ^= 1 << bit
 		}
 	}
 	dst := "made"
